@@ -179,80 +179,80 @@ theorem reflectFields_cons (goName : String) (tagName : Option String) (dash omi
 
 
 mutual
-theorem reflectV_total : ∀ (v : GoVal) (t : GoType), GoVal.hasType t v = true → (reflectV t v).isSome = true
+theorem reflectV_total (ub : Int) (hb : ub ≤ (2 ^ 64 : Int)) : ∀ (v : GoVal) (t : GoType), GoVal.hasTypeB ub t v = true → (reflectV t v).isSome = true
   | .nil, t, _ => by cases t <;> simp [reflectV]
-  | .bool b, t, h => by cases t <;> simp_all [reflectV, GoVal.hasType]
-  | .int i, t, h => by cases t <;> simp_all [reflectV, GoVal.hasType] <;> omega
-  | .float u z, t, h => by cases t <;> simp_all [reflectV, GoVal.hasType]
-  | .float32 u z s, t, h => by cases t <;> simp_all [reflectV, GoVal.hasType]
-  | .str s, t, h => by cases t <;> simp_all [reflectV, GoVal.hasType]
-  | .bytes b, t, h => by cases t <;> simp_all [reflectV, GoVal.hasType]
+  | .bool b, t, h => by cases t <;> simp_all [reflectV, GoVal.hasTypeB]
+  | .int i, t, h => by cases t <;> simp_all [reflectV, GoVal.hasTypeB] <;> omega
+  | .float u z, t, h => by cases t <;> simp_all [reflectV, GoVal.hasTypeB]
+  | .float32 u z s, t, h => by cases t <;> simp_all [reflectV, GoVal.hasTypeB]
+  | .str s, t, h => by cases t <;> simp_all [reflectV, GoVal.hasTypeB]
+  | .bytes b, t, h => by cases t <;> simp_all [reflectV, GoVal.hasTypeB]
   | .ptr v, t, h => by
-    cases t <;> simp [GoVal.hasType] at h
-    simp only [reflectV]; exact reflectV_total v _ h
+    cases t <;> simp [GoVal.hasTypeB] at h
+    simp only [reflectV]; exact reflectV_total ub hb v _ h
   | .iface t' v, t, h => by
-    cases t <;> simp [GoVal.hasType] at h
-    simp only [reflectV]; exact reflectV_total v _ h
+    cases t <;> simp [GoVal.hasTypeB] at h
+    simp only [reflectV]; exact reflectV_total ub hb v _ h
   | .slice l, t, h => by
-    cases t <;> simp [GoVal.hasType] at h
-    simp only [reflectV, Option.isSome_map]; exact reflectList_total l _ h
+    cases t <;> simp [GoVal.hasTypeB] at h
+    simp only [reflectV, Option.isSome_map]; exact reflectList_total ub hb l _ h
   | .map m, t, h => by
-    cases t <;> simp [GoVal.hasType] at h
-    simp only [reflectV, Option.isSome_map]; exact reflectEntries_total m _ h
+    cases t <;> simp [GoVal.hasTypeB] at h
+    simp only [reflectV, Option.isSome_map]; exact reflectEntries_total ub hb m _ h
   | .struct vals, t, h => by
-    cases t <;> simp [GoVal.hasType] at h
-    simp only [reflectV, Option.isSome_map]; exact reflectFields_total vals _ [] h
-theorem reflectList_total : ∀ (l : List GoVal) (t : GoType), GoVal.allHaveType t l = true → (reflectList t l).isSome = true
+    cases t <;> simp [GoVal.hasTypeB] at h
+    simp only [reflectV, Option.isSome_map]; exact reflectFields_total ub hb vals _ [] h
+theorem reflectList_total (ub : Int) (hb : ub ≤ (2 ^ 64 : Int)) : ∀ (l : List GoVal) (t : GoType), GoVal.allHaveTypeB ub t l = true → (reflectList t l).isSome = true
   | [], t, _ => by simp [reflectList]
   | v :: rest, t, h => by
-    simp [GoVal.allHaveType] at h
-    have h1 := reflectV_total v t h.1
-    have h2 := reflectList_total rest t h.2
+    simp [GoVal.allHaveTypeB] at h
+    have h1 := reflectV_total ub hb v t h.1
+    have h2 := reflectList_total ub hb rest t h.2
     rw [Option.isSome_iff_exists] at h1 h2
     obtain ⟨x, hx⟩ := h1; obtain ⟨xs, hxs⟩ := h2
     simp [reflectList, hx, hxs]
-theorem reflectEntries_total : ∀ (l : List (String × GoVal)) (t : GoType), GoVal.entriesHaveType t l = true → (reflectEntries t l).isSome = true
+theorem reflectEntries_total (ub : Int) (hb : ub ≤ (2 ^ 64 : Int)) : ∀ (l : List (String × GoVal)) (t : GoType), GoVal.entriesHaveTypeB ub t l = true → (reflectEntries t l).isSome = true
   | [], t, _ => by simp [reflectEntries]
   | (k, v) :: rest, t, h => by
-    simp [GoVal.entriesHaveType] at h
-    have h1 := reflectV_total v t h.1
-    have h2 := reflectEntries_total rest t h.2
+    simp [GoVal.entriesHaveTypeB] at h
+    have h1 := reflectV_total ub hb v t h.1
+    have h2 := reflectEntries_total ub hb rest t h.2
     rw [Option.isSome_iff_exists] at h1 h2
     obtain ⟨x, hx⟩ := h1; obtain ⟨xs, hxs⟩ := h2
     simp [reflectEntries, hx, hxs]
-theorem reflectFields_total : ∀ (vals : List GoVal) (fs : List GoField) (acc : Fields),
-    GoVal.fieldsHaveType fs vals = true → (reflectFields fs vals acc).isSome = true
-  | [], fs, acc, h => by cases fs <;> simp_all [GoVal.fieldsHaveType, reflectFields]
-  | v :: vs, [], acc, h => by simp [GoVal.fieldsHaveType] at h
+theorem reflectFields_total (ub : Int) (hb : ub ≤ (2 ^ 64 : Int)) : ∀ (vals : List GoVal) (fs : List GoField) (acc : Fields),
+    GoVal.fieldsHaveTypeB ub fs vals = true → (reflectFields fs vals acc).isSome = true
+  | [], fs, acc, h => by cases fs <;> simp_all [GoVal.fieldsHaveTypeB, reflectFields]
+  | v :: vs, [], acc, h => by simp [GoVal.fieldsHaveTypeB] at h
   | v :: vs, (.mk goName tagName dash omitempty inline embedded type) :: fs, acc, h => by
-    simp [GoVal.fieldsHaveType] at h
-    have ihr := fun acc => reflectFields_total vs fs acc h.2
+    simp [GoVal.fieldsHaveTypeB] at h
+    have ihr := fun acc => reflectFields_total ub hb vs fs acc h.2
     rw [reflectFields_cons]
     split
     · exact ihr _
     split
     · split
-      · have h1 := reflectFields_total _ _ acc (by simpa [GoVal.hasType] using h.1)
+      · have h1 := reflectFields_total ub hb _ _ acc (by simpa [GoVal.hasTypeB] using h.1)
         rw [Option.isSome_iff_exists] at h1
         obtain ⟨x, hx⟩ := h1
         simp only [hx]; exact ihr _
-      · have h1 := reflectFields_total _ _ acc (by simpa [GoVal.hasType] using h.1)
+      · have h1 := reflectFields_total ub hb _ _ acc (by simpa [GoVal.hasTypeB] using h.1)
         rw [Option.isSome_iff_exists] at h1
         obtain ⟨x, hx⟩ := h1
         simp only [hx]; exact ihr _
       · exact ihr _
       · rename_i hns
-        cases v <;> simp [GoVal.hasType] at h
+        cases v <;> simp [GoVal.hasTypeB] at h
         exact absurd rfl (hns _)
       · rename_i hns hnn
-        cases v <;> simp [GoVal.hasType] at h hnn
+        cases v <;> simp [GoVal.hasTypeB] at h hnn
         rename_i v'
-        cases v' <;> simp [GoVal.hasType] at h
+        cases v' <;> simp [GoVal.hasTypeB] at h
         exact absurd rfl (hns _)
       · exact ihr _
     split
     · exact ihr _
-    · have h1 := reflectV_total v type h.1
+    · have h1 := reflectV_total ub hb v type h.1
       rw [Option.isSome_iff_exists] at h1
       obtain ⟨x, hx⟩ := h1
       simp only [hx]; exact ihr _
@@ -761,57 +761,60 @@ theorem mem_keys_presentFields (acc : Fields) (k : String) (h : k ∈ (presentFi
   exact List.mem_map.2 ⟨_, mem_presentFields acc b hb, rfl⟩
 
 mutual
-theorem reflectV_equals : ∀ (v : GoVal) (t : GoType) (r j : Value), GoVal.hasType t v = true →
+theorem reflectV_equals (ub : Int) (hb : ub ≤ (2 ^ 63 : Int)) : ∀ (v : GoVal) (t : GoType) (r j : Value), GoVal.hasTypeB ub t v = true →
     t.inFamily = true → v.inFamily = true → reflectV t v = some r → jsonV t v = some j →
     Value.equals r j = true
   | .nil, t, r, j, _, _, _, hr, hj => by
     cases t <;> simp [reflectV, jsonV] at hr hj <;> subst hr <;> subst hj <;> rfl
   | .bool b, t, r, j, h, _, _, hr, hj => by
-    cases t <;> simp [GoVal.hasType] at h
+    cases t <;> simp [GoVal.hasTypeB] at h
     simp [reflectV, jsonV] at hr hj; subst hr; subst hj; exact Value.equals_refl _
   | .int i, t, r, j, h, _, _, hr, hj => by
-    cases t <;> simp [GoVal.hasType] at h
+    cases t <;> simp [GoVal.hasTypeB] at h
     · simp [reflectV, jsonV] at hr hj; subst hr; subst hj; exact Value.equals_refl _
     · simp [reflectV, jsonV] at hr hj
-      obtain ⟨_, rfl⟩ := hr; obtain ⟨_, rfl⟩ := hj; exact Value.equals_refl _
+      obtain ⟨_, rfl⟩ := hr; obtain ⟨_, rfl⟩ := hj
+      have hlt : i < (2 ^ 63 : Int) := by omega
+      rw [if_pos (by simpa using hlt)]
+      exact Value.equals_refl _
   | .float u z, t, r, j, h, _, _, hr, hj => by
-    cases t <;> simp [GoVal.hasType] at h
+    cases t <;> simp [GoVal.hasTypeB] at h
     simp [reflectV, jsonV] at hr hj; subst hr; subst hj; exact jsonNum_equals u z
   | .float32 u z s, t, r, j, h, _, _, hr, hj => by
-    cases t <;> simp [GoVal.hasType] at h
+    cases t <;> simp [GoVal.hasTypeB] at h
     simp [reflectV, jsonV] at hr hj; subst hr; subst hj; exact jsonNum_equals s z
   | .str s, t, r, j, h, _, _, hr, hj => by
-    cases t <;> simp [GoVal.hasType] at h
+    cases t <;> simp [GoVal.hasTypeB] at h
     simp [reflectV, jsonV] at hr hj; subst hr; subst hj; exact Value.equals_refl _
   | .bytes b, t, r, j, h, _, _, hr, hj => by
-    cases t <;> simp [GoVal.hasType] at h
+    cases t <;> simp [GoVal.hasTypeB] at h
     simp [reflectV, jsonV] at hr hj; subst hr; subst hj; exact Value.equals_refl _
   | .ptr v, t, r, j, h, hf, hv, hr, hj => by
-    cases t <;> simp [GoVal.hasType] at h
+    cases t <;> simp [GoVal.hasTypeB] at h
     rw [inFamily_ptr] at hf; rw [inFamily_vptr] at hv
     simp only [reflectV] at hr; simp only [jsonV] at hj
-    exact reflectV_equals v _ r j h hf hv hr hj
+    exact reflectV_equals ub hb v _ r j h hf hv hr hj
   | .iface t' v, t, r, j, h, hf, hv, hr, hj => by
-    cases t <;> simp [GoVal.hasType] at h
+    cases t <;> simp [GoVal.hasTypeB] at h
     simp [GoVal.inFamily] at hv
     simp only [reflectV] at hr; simp only [jsonV] at hj
-    exact reflectV_equals v _ r j h hv.1 hv.2 hr hj
+    exact reflectV_equals ub hb v _ r j h hv.1 hv.2 hr hj
   | .slice l, t, r, j, h, hf, hv, hr, hj => by
-    cases t <;> simp [GoVal.hasType] at h
+    cases t <;> simp [GoVal.hasTypeB] at h
     rw [inFamily_slice] at hf; simp [GoVal.inFamily] at hv
     simp only [reflectV, Option.map_eq_some_iff] at hr; simp only [jsonV, Option.map_eq_some_iff] at hj
     obtain ⟨rs, hrs, rfl⟩ := hr; obtain ⟨js, hjs, rfl⟩ := hj
     simp only [Value.equals]
-    exact reflectList_equals l _ rs js h hf hv hrs hjs
+    exact reflectList_equals ub hb l _ rs js h hf hv hrs hjs
   | .map m, t, r, j, h, hf, hv, hr, hj => by
-    cases t <;> simp [GoVal.hasType] at h
+    cases t <;> simp [GoVal.hasTypeB] at h
     rw [inFamily_map] at hf; simp [GoVal.inFamily] at hv
     simp only [reflectV, Option.map_eq_some_iff] at hr; simp only [jsonV, Option.map_eq_some_iff] at hj
     obtain ⟨rs, hrs, rfl⟩ := hr; obtain ⟨js, hjs, rfl⟩ := hj
     simp only [Value.equals]
-    exact reflectEntries_equals m _ rs js h hf hv hrs hjs
+    exact reflectEntries_equals ub hb m _ rs js h hf hv hrs hjs
   | .struct vals, t, r, j, h, hf, hv, hr, hj => by
-    cases t <;> simp [GoVal.hasType] at h
+    cases t <;> simp [GoVal.hasTypeB] at h
     rw [inFamily_struct] at hf; rw [inFamily_vstruct] at hv
     simp only [Bool.and_eq_true, decide_eq_true_eq] at hf
     simp only [reflectV, Option.map_eq_some_iff] at hr
@@ -819,15 +822,15 @@ theorem reflectV_equals : ∀ (v : GoVal) (t : GoType) (r j : Value), GoVal.hasT
       Option.map_eq_some_iff] at hj
     obtain ⟨rs, hrs, rfl⟩ := hr; obtain ⟨js, hjs, rfl⟩ := hj
     simp only [Value.equals]
-    exact reflectFields_rel vals _ [] rs [] js h hf.1 hf.2 hv List.Pairwise.nil (by simp)
+    exact reflectFields_rel ub hb vals _ [] rs [] js h hf.1 hf.2 hv List.Pairwise.nil (by simp)
       (by simp [presentFields, Value.equalsFields]) hrs hjs
-theorem reflectList_equals : ∀ (l : List GoVal) (t : GoType) (rs js : List Value),
-    GoVal.allHaveType t l = true → t.inFamily = true → GoVal.allInFamily l = true →
+theorem reflectList_equals (ub : Int) (hb : ub ≤ (2 ^ 63 : Int)) : ∀ (l : List GoVal) (t : GoType) (rs js : List Value),
+    GoVal.allHaveTypeB ub t l = true → t.inFamily = true → GoVal.allInFamily l = true →
     reflectList t l = some rs → jsonList t l = some js → Value.equalsList rs js = true
   | [], t, rs, js, _, _, _, hr, hj => by
     simp [reflectList] at hr; simp [jsonList] at hj; subst hr; subst hj; simp [Value.equalsList]
   | v :: rest, t, rs, js, h, hf, hv, hr, hj => by
-    simp [GoVal.allHaveType] at h
+    simp [GoVal.allHaveTypeB] at h
     rw [allInFamily_cons] at hv; simp at hv
     cases h1 : reflectV t v with
     | none => simp [reflectList, h1] at hr
@@ -843,15 +846,15 @@ theorem reflectList_equals : ∀ (l : List GoVal) (t : GoType) (rs js : List Val
     | some ys =>
     simp [reflectList, h1, h2] at hr; simp [jsonList, h3, h4] at hj
     subst hr; subst hj
-    simp [Value.equalsList, reflectV_equals v t x y h.1 hf hv.1 h1 h3,
-      reflectList_equals rest t xs ys h.2 hf hv.2 h2 h4]
-theorem reflectEntries_equals : ∀ (l : List (String × GoVal)) (t : GoType) (rs js : List (String × Value)),
-    GoVal.entriesHaveType t l = true → t.inFamily = true → GoVal.entriesInFamily l = true →
+    simp [Value.equalsList, reflectV_equals ub hb v t x y h.1 hf hv.1 h1 h3,
+      reflectList_equals ub hb rest t xs ys h.2 hf hv.2 h2 h4]
+theorem reflectEntries_equals (ub : Int) (hb : ub ≤ (2 ^ 63 : Int)) : ∀ (l : List (String × GoVal)) (t : GoType) (rs js : List (String × Value)),
+    GoVal.entriesHaveTypeB ub t l = true → t.inFamily = true → GoVal.entriesInFamily l = true →
     reflectEntries t l = some rs → jsonEntries t l = some js → Value.equalsFields rs js = true
   | [], t, rs, js, _, _, _, hr, hj => by
     simp [reflectEntries] at hr; simp [jsonEntries] at hj; subst hr; subst hj; simp [Value.equalsFields]
   | (k, v) :: rest, t, rs, js, h, hf, hv, hr, hj => by
-    simp [GoVal.entriesHaveType] at h
+    simp [GoVal.entriesHaveTypeB] at h
     simp [GoVal.entriesInFamily] at hv
     cases h1 : reflectV t v with
     | none => simp [reflectEntries, h1] at hr
@@ -867,15 +870,150 @@ theorem reflectEntries_equals : ∀ (l : List (String × GoVal)) (t : GoType) (r
     | some ys =>
     simp [reflectEntries, h1, h2] at hr; simp [jsonEntries, h3, h4] at hj
     subst hr; subst hj
-    simp [Value.equalsFields, reflectV_equals v t x y h.1 hf hv.1 h1 h3,
-      reflectEntries_equals rest t xs ys h.2 hf hv.2 h2 h4]
-theorem reflectFields_rel : ∀ (vals : List GoVal) (fs : List GoField) (acc acc' : Fields)
+    simp [Value.equalsFields, reflectV_equals ub hb v t x y h.1 hf hv.1 h1 h3,
+      reflectEntries_equals ub hb rest t xs ys h.2 hf hv.2 h2 h4]
+theorem reflectFields_rel (ub : Int) (hb : ub ≤ (2 ^ 63 : Int)) : ∀ (vals : List GoVal) (fs : List GoField) (acc acc' : Fields)
     (jacc jacc' : List (String × Value)),
-    GoVal.fieldsHaveType fs vals = true → fieldsInFamily fs = true → (fieldNames fs).Nodup →
+    GoVal.fieldsHaveTypeB ub fs vals = true → fieldsInFamily fs = true → (fieldNames fs).Nodup →
     GoVal.allInFamily vals = true → KSorted acc → (∀ k ∈ acc.map (·.1), k ∉ fieldNames fs) →
     Value.equalsFields (presentFields acc) jacc = true →
     reflectFields fs vals acc = some acc' → jsonFields fs vals jacc = some jacc' →
     Value.equalsFields (presentFields acc') jacc' = true
+  | [], fs, acc, acc', jacc, jacc', h, _, _, _, _, _, hrel, hr, hj => by
+    cases fs <;> simp [GoVal.fieldsHaveTypeB] at h
+    simp [reflectFields] at hr; simp [jsonFields] at hj; subst hr; subst hj; exact hrel
+  | v :: vs, [], _, _, _, _, h, _, _, _, _, _, _, _, _ => by simp [GoVal.fieldsHaveTypeB] at h
+  | v :: vs, (.mk goName tagName dash omitempty inline embedded type) :: fs, acc, acc', jacc, jacc',
+      h, hf, hn, hv, hs, hdis, hrel, hr, hj => by
+    simp [GoVal.fieldsHaveTypeB] at h
+    rw [allInFamily_cons] at hv; simp at hv
+    rw [reflectFields_cons] at hr
+    rw [jsonFields_cons] at hj
+    rw [fieldNames_cons] at hn hdis
+    by_cases hd : dash = true
+    · simp only [hd, if_true] at hn hdis hr hj
+      rw [fieldsInFamily_cons] at hf; simp [hd] at hf
+      exact reflectFields_rel ub hb vs fs acc acc' jacc jacc' h.2 hf hn hv.2 hs hdis hrel hr hj
+    obtain ⟨he, hst, htf, hff⟩ := family_field hf hd
+    simp only [if_neg hd] at hn hdis hr hj
+    rw [he] at hj
+    by_cases hi : inline = true
+    · simp only [hi, if_true] at hn hdis hr hj
+      rw [List.nodup_append] at hn
+      rcases isStructOrPtrStruct_cases type (hst hi) with ⟨inner, rfl⟩ | ⟨inner, rfl⟩
+      · cases v <;> simp [GoVal.hasTypeB] at h
+        rename_i ivals
+        rw [inFamily_struct] at htf; simp at htf
+        rw [inFamily_vstruct] at hv
+        simp only [inlineNames] at hn hdis
+        cases h1 : reflectFields inner ivals acc with
+        | none => simp [h1] at hr
+        | some acc1 =>
+        cases h2 : jsonFields inner ivals jacc with
+        | none => simp [h2] at hj
+        | some j1 =>
+        simp only [h1] at hr; simp only [h2] at hj
+        have hrel1 := reflectFields_rel ub hb ivals inner acc acc1 jacc j1 h.1 htf.1 htf.2 hv.1 hs
+          (fun k hk hm => hdis k hk (List.mem_append_left _ hm)) hrel h1 h2
+        have inv1 := reflectFields_inv ivals inner acc acc1 h1
+        exact reflectFields_rel ub hb vs fs acc1 acc' j1 jacc' h.2 hff hn.2.1 hv.2 (inv1.1 hs) (by
+          intro k hk hm
+          rcases inv1.2 k hk with hk | hk
+          · exact hdis k hk (List.mem_append_right _ hm)
+          · exact hn.2.2 k hk k hm rfl) hrel1 hr hj
+      · cases v <;> simp [GoVal.hasTypeB] at h
+        · simp only [inlineNames] at hn hdis
+          exact reflectFields_rel ub hb vs fs _ acc' jacc jacc' h hff hn.2.1 hv.2 (absentFields_sorted _ _ hs) (by
+            intro k hk hm
+            rcases absentFields_keys _ _ k hk with hk | hk
+            · exact hdis k hk (List.mem_append_right _ hm)
+            · exact hn.2.2 k hk k hm rfl)
+            (by rw [absentFields_present inner acc hn.1
+                  (fun k hk hm => hdis k hk (List.mem_append_left _ hm))]; exact hrel) hr hj
+        · rename_i v'
+          cases v' <;> simp [GoVal.hasTypeB] at h
+          rename_i ivals
+          rw [inFamily_ptr, inFamily_struct] at htf; simp at htf
+          rw [inFamily_vptr, inFamily_vstruct] at hv
+          simp only [inlineNames] at hn hdis
+          cases h1 : reflectFields inner ivals acc with
+          | none => simp [h1] at hr
+          | some acc1 =>
+          cases h2 : jsonFields inner ivals jacc with
+          | none => simp [h2] at hj
+          | some j1 =>
+          simp only [h1] at hr; simp only [h2] at hj
+          have hrel1 := reflectFields_rel ub hb ivals inner acc acc1 jacc j1 h.1 htf.1 htf.2 hv.1 hs
+            (fun k hk hm => hdis k hk (List.mem_append_left _ hm)) hrel h1 h2
+          have inv1 := reflectFields_inv ivals inner acc acc1 h1
+          exact reflectFields_rel ub hb vs fs acc1 acc' j1 jacc' h.2 hff hn.2.1 hv.2 (inv1.1 hs) (by
+            intro k hk hm
+            rcases inv1.2 k hk with hk | hk
+            · exact hdis k hk (List.mem_append_right _ hm)
+            · exact hn.2.2 k hk k hm rfl) hrel1 hr hj
+    · simp only [hi] at hn hdis hr hj
+      simp only [Bool.false_eq_true, if_false] at hn hdis hr hj
+      rw [List.nodup_cons] at hn
+      have hk0 : tagName.getD goName ∉ acc.map (·.1) := fun hm => hdis _ hm (by simp)
+      by_cases ho : (omitempty && v.isEmptyValue) = true
+      · simp only [ho, if_true] at hr hj
+        exact reflectFields_rel ub hb vs fs _ acc' jacc jacc' h.2 hff hn.2 hv.2 (insertSorted_sorted _ _ _ hs) (by
+          intro k hk hm
+          rcases mem_keys_insertSorted _ _ _ _ hk with hk | hk
+          · subst hk; exact hn.1 hm
+          · exact hdis k hk (List.mem_cons_of_mem _ hm))
+          (by rw [presentFields_insertSorted_none _ _ hk0]; exact hrel) hr hj
+      · simp only [if_neg ho] at hr hj
+        cases h1 : reflectV type v with
+        | none => simp [h1] at hr
+        | some x =>
+        cases h2 : jsonV type v with
+        | none => simp [h2] at hj
+        | some y =>
+        simp only [h1] at hr; simp only [h2] at hj
+        have hxy := reflectV_equals ub hb v type x y h.1 htf hv.1 h1 h2
+        have hkj : tagName.getD goName ∉ jacc.map (·.1) := by
+          rw [← equalsFields_keys _ _ hrel]
+          exact fun hm => hk0 (mem_keys_presentFields _ _ hm)
+        rw [insertNew_eq_insertSorted _ y jacc hkj] at hj
+        simp only at hj
+        exact reflectFields_rel ub hb vs fs _ acc' _ jacc' h.2 hff hn.2 hv.2 (insertSorted_sorted _ _ _ hs) (by
+          intro k hk hm
+          rcases mem_keys_insertSorted _ _ _ _ hk with hk | hk
+          · subst hk; exact hn.1 hm
+          · exact hdis k hk (List.mem_cons_of_mem _ hm))
+          (by rw [presentFields_insertSorted_some _ _ _ hs hk0]
+              exact equalsFields_insertSorted _ _ _ hxy _ _ hrel) hr hj
+end
+
+/-! ### the keys of a struct do not depend on the values of its fields -/
+
+theorem keys_insertSorted_congr (k : String) (x y : Value) :
+    ∀ (l1 l2 : List (String × Value)), l1.map (·.1) = l2.map (·.1) →
+      (insertSorted k x l1).map (·.1) = (insertSorted k y l2).map (·.1)
+  | [], [], _ => by simp [insertSorted]
+  | [], _ :: _, h => by simp at h
+  | _ :: _, [], h => by simp at h
+  | (k1, a1) :: r1, (k2, a2) :: r2, h => by
+    simp only [List.map_cons, List.cons.injEq] at h
+    obtain ⟨hk, hr⟩ := h
+    subst hk
+    have ih := keys_insertSorted_congr k x y r1 r2 hr
+    simp only [insertSorted]
+    split
+    · simp [hr]
+    · split
+      · simp [hr]
+      · simp [ih]
+
+/-- `reflectFields_rel` for the keys alone: whatever the field values are read as -/
+theorem reflectFields_keys : ∀ (vals : List GoVal) (fs : List GoField) (acc acc' : Fields)
+    (jacc jacc' : List (String × Value)),
+    GoVal.fieldsHaveType fs vals = true → fieldsInFamily fs = true → (fieldNames fs).Nodup →
+    GoVal.allInFamily vals = true → KSorted acc → (∀ k ∈ acc.map (·.1), k ∉ fieldNames fs) →
+    (presentFields acc).map (·.1) = jacc.map (·.1) →
+    reflectFields fs vals acc = some acc' → jsonFields fs vals jacc = some jacc' →
+    (presentFields acc').map (·.1) = jacc'.map (·.1)
   | [], fs, acc, acc', jacc, jacc', h, _, _, _, _, _, hrel, hr, hj => by
     cases fs <;> simp [GoVal.fieldsHaveType] at h
     simp [reflectFields] at hr; simp [jsonFields] at hj; subst hr; subst hj; exact hrel
@@ -890,7 +1028,7 @@ theorem reflectFields_rel : ∀ (vals : List GoVal) (fs : List GoField) (acc acc
     by_cases hd : dash = true
     · simp only [hd, if_true] at hn hdis hr hj
       rw [fieldsInFamily_cons] at hf; simp [hd] at hf
-      exact reflectFields_rel vs fs acc acc' jacc jacc' h.2 hf hn hv.2 hs hdis hrel hr hj
+      exact reflectFields_keys vs fs acc acc' jacc jacc' h.2 hf hn hv.2 hs hdis hrel hr hj
     obtain ⟨he, hst, htf, hff⟩ := family_field hf hd
     simp only [if_neg hd] at hn hdis hr hj
     rw [he] at hj
@@ -910,17 +1048,17 @@ theorem reflectFields_rel : ∀ (vals : List GoVal) (fs : List GoField) (acc acc
         | none => simp [h2] at hj
         | some j1 =>
         simp only [h1] at hr; simp only [h2] at hj
-        have hrel1 := reflectFields_rel ivals inner acc acc1 jacc j1 h.1 htf.1 htf.2 hv.1 hs
+        have hrel1 := reflectFields_keys ivals inner acc acc1 jacc j1 h.1 htf.1 htf.2 hv.1 hs
           (fun k hk hm => hdis k hk (List.mem_append_left _ hm)) hrel h1 h2
         have inv1 := reflectFields_inv ivals inner acc acc1 h1
-        exact reflectFields_rel vs fs acc1 acc' j1 jacc' h.2 hff hn.2.1 hv.2 (inv1.1 hs) (by
+        exact reflectFields_keys vs fs acc1 acc' j1 jacc' h.2 hff hn.2.1 hv.2 (inv1.1 hs) (by
           intro k hk hm
           rcases inv1.2 k hk with hk | hk
           · exact hdis k hk (List.mem_append_right _ hm)
           · exact hn.2.2 k hk k hm rfl) hrel1 hr hj
       · cases v <;> simp [GoVal.hasType] at h
         · simp only [inlineNames] at hn hdis
-          exact reflectFields_rel vs fs _ acc' jacc jacc' h hff hn.2.1 hv.2 (absentFields_sorted _ _ hs) (by
+          exact reflectFields_keys vs fs _ acc' jacc jacc' h hff hn.2.1 hv.2 (absentFields_sorted _ _ hs) (by
             intro k hk hm
             rcases absentFields_keys _ _ k hk with hk | hk
             · exact hdis k hk (List.mem_append_right _ hm)
@@ -940,10 +1078,10 @@ theorem reflectFields_rel : ∀ (vals : List GoVal) (fs : List GoField) (acc acc
           | none => simp [h2] at hj
           | some j1 =>
           simp only [h1] at hr; simp only [h2] at hj
-          have hrel1 := reflectFields_rel ivals inner acc acc1 jacc j1 h.1 htf.1 htf.2 hv.1 hs
+          have hrel1 := reflectFields_keys ivals inner acc acc1 jacc j1 h.1 htf.1 htf.2 hv.1 hs
             (fun k hk hm => hdis k hk (List.mem_append_left _ hm)) hrel h1 h2
           have inv1 := reflectFields_inv ivals inner acc acc1 h1
-          exact reflectFields_rel vs fs acc1 acc' j1 jacc' h.2 hff hn.2.1 hv.2 (inv1.1 hs) (by
+          exact reflectFields_keys vs fs acc1 acc' j1 jacc' h.2 hff hn.2.1 hv.2 (inv1.1 hs) (by
             intro k hk hm
             rcases inv1.2 k hk with hk | hk
             · exact hdis k hk (List.mem_append_right _ hm)
@@ -954,7 +1092,7 @@ theorem reflectFields_rel : ∀ (vals : List GoVal) (fs : List GoField) (acc acc
       have hk0 : tagName.getD goName ∉ acc.map (·.1) := fun hm => hdis _ hm (by simp)
       by_cases ho : (omitempty && v.isEmptyValue) = true
       · simp only [ho, if_true] at hr hj
-        exact reflectFields_rel vs fs _ acc' jacc jacc' h.2 hff hn.2 hv.2 (insertSorted_sorted _ _ _ hs) (by
+        exact reflectFields_keys vs fs _ acc' jacc jacc' h.2 hff hn.2 hv.2 (insertSorted_sorted _ _ _ hs) (by
           intro k hk hm
           rcases mem_keys_insertSorted _ _ _ _ hk with hk | hk
           · subst hk; exact hn.1 hm
@@ -968,20 +1106,18 @@ theorem reflectFields_rel : ∀ (vals : List GoVal) (fs : List GoField) (acc acc
         | none => simp [h2] at hj
         | some y =>
         simp only [h1] at hr; simp only [h2] at hj
-        have hxy := reflectV_equals v type x y h.1 htf hv.1 h1 h2
         have hkj : tagName.getD goName ∉ jacc.map (·.1) := by
-          rw [← equalsFields_keys _ _ hrel]
+          rw [← hrel]
           exact fun hm => hk0 (mem_keys_presentFields _ _ hm)
         rw [insertNew_eq_insertSorted _ y jacc hkj] at hj
         simp only at hj
-        exact reflectFields_rel vs fs _ acc' _ jacc' h.2 hff hn.2 hv.2 (insertSorted_sorted _ _ _ hs) (by
+        exact reflectFields_keys vs fs _ acc' _ jacc' h.2 hff hn.2 hv.2 (insertSorted_sorted _ _ _ hs) (by
           intro k hk hm
           rcases mem_keys_insertSorted _ _ _ _ hk with hk | hk
           · subst hk; exact hn.1 hm
           · exact hdis k hk (List.mem_cons_of_mem _ hm))
           (by rw [presentFields_insertSorted_some _ _ _ hs hk0]
-              exact equalsFields_insertSorted _ _ _ hxy _ _ hrel) hr hj
-end
+              exact keys_insertSorted_congr _ _ _ _ _ hrel) hr hj
 
 /-! ### structs -/
 
@@ -998,9 +1134,60 @@ theorem reflectV_struct_keys (fs : List GoField) (vals : List GoVal) (m j : List
     (hr : reflectV (.struct fs) (.struct vals) = some (.map m))
     (hj : jsonV (.struct fs) (.struct vals) = some (.map j)) :
     m.map (·.1) = j.map (·.1) := by
-  have h := reflectV_equals _ _ _ _ ht hf hv hr hj
-  simp only [Value.equals] at h
-  exact equalsFields_keys m j h
+  rw [inFamily_struct] at hf; rw [inFamily_vstruct] at hv
+  simp only [Bool.and_eq_true, decide_eq_true_eq] at hf
+  simp only [GoVal.hasType] at ht
+  simp only [reflectV, Option.map_eq_some_iff] at hr
+  simp only [jsonV, hasRepeat_jsonNames_of_family _ hf.1 hf.2, Bool.false_eq_true, if_false,
+    Option.map_eq_some_iff] at hj
+  obtain ⟨rs, hrs, hm⟩ := hr; obtain ⟨js, hjs, hjm⟩ := hj
+  cases hm; cases hjm
+  exact reflectFields_keys vals _ [] rs [] _ ht hf.1 hf.2 hv List.Pairwise.nil (by simp)
+    (by simp [presentFields]) hrs hjs
+
+/-! ### the bounded typing implies the typing -/
+
+mutual
+theorem hasTypeB_hasType (ub : Int) : ∀ (v : GoVal) (t : GoType), GoVal.hasTypeB ub t v = true → GoVal.hasType t v = true
+  | .nil, t, h => by cases t <;> simp_all [GoVal.hasTypeB, GoVal.hasType]
+  | .bool _, t, h => by cases t <;> simp_all [GoVal.hasTypeB, GoVal.hasType]
+  | .int _, t, h => by cases t <;> simp_all [GoVal.hasTypeB, GoVal.hasType]
+  | .float _ _, t, h => by cases t <;> simp_all [GoVal.hasTypeB, GoVal.hasType]
+  | .float32 _ _ _, t, h => by cases t <;> simp_all [GoVal.hasTypeB, GoVal.hasType]
+  | .str _, t, h => by cases t <;> simp_all [GoVal.hasTypeB, GoVal.hasType]
+  | .bytes _, t, h => by cases t <;> simp_all [GoVal.hasTypeB, GoVal.hasType]
+  | .ptr v, t, h => by
+    cases t <;> simp [GoVal.hasTypeB] at h
+    simp only [GoVal.hasType]; exact hasTypeB_hasType ub v _ h
+  | .iface t' v, t, h => by
+    cases t <;> simp [GoVal.hasTypeB] at h
+    simp only [GoVal.hasType]; exact hasTypeB_hasType ub v _ h
+  | .slice l, t, h => by
+    cases t <;> simp [GoVal.hasTypeB] at h
+    simp only [GoVal.hasType]; exact allHaveTypeB_allHaveType ub l _ h
+  | .map m, t, h => by
+    cases t <;> simp [GoVal.hasTypeB] at h
+    simp only [GoVal.hasType]; exact entriesHaveTypeB_entriesHaveType ub m _ h
+  | .struct vals, t, h => by
+    cases t <;> simp [GoVal.hasTypeB] at h
+    simp only [GoVal.hasType]; exact fieldsHaveTypeB_fieldsHaveType ub vals _ h
+theorem allHaveTypeB_allHaveType (ub : Int) : ∀ (l : List GoVal) (t : GoType), GoVal.allHaveTypeB ub t l = true → GoVal.allHaveType t l = true
+  | [], t, _ => by simp [GoVal.allHaveType]
+  | v :: rest, t, h => by
+    simp [GoVal.allHaveTypeB] at h
+    simp [GoVal.allHaveType, hasTypeB_hasType ub v t h.1, allHaveTypeB_allHaveType ub rest t h.2]
+theorem entriesHaveTypeB_entriesHaveType (ub : Int) : ∀ (l : List (String × GoVal)) (t : GoType), GoVal.entriesHaveTypeB ub t l = true → GoVal.entriesHaveType t l = true
+  | [], t, _ => by simp [GoVal.entriesHaveType]
+  | (k, v) :: rest, t, h => by
+    simp [GoVal.entriesHaveTypeB] at h
+    simp [GoVal.entriesHaveType, hasTypeB_hasType ub v t h.1, entriesHaveTypeB_entriesHaveType ub rest t h.2]
+theorem fieldsHaveTypeB_fieldsHaveType (ub : Int) : ∀ (vals : List GoVal) (fs : List GoField), GoVal.fieldsHaveTypeB ub fs vals = true → GoVal.fieldsHaveType fs vals = true
+  | [], fs, h => by cases fs <;> simp_all [GoVal.fieldsHaveTypeB, GoVal.fieldsHaveType]
+  | v :: vs, [], h => by simp [GoVal.fieldsHaveTypeB] at h
+  | v :: vs, (.mk _ _ _ _ _ _ type) :: fs, h => by
+    simp [GoVal.fieldsHaveTypeB] at h
+    simp [GoVal.fieldsHaveType, hasTypeB_hasType ub v type h.1, fieldsHaveTypeB_fieldsHaveType ub vs fs h.2]
+end
 
 /-! ### a concrete member of the family (non-vacuity witness for C18): an inline struct three levels
 deep, an omitempty field that is empty, a nil embedded pointer, a float32, a []byte, an interface holding
@@ -1027,5 +1214,12 @@ def exV : GoVal :=
                     .str "", .nil],
            .int 7]
 end C18Ex
+
+/-- a `uint` holding 2^63 is read by the reflection wrappers as -2^63 (`int64(r.Value.Uint())`), by
+encoding/json as 2^63 -/
+theorem reflect_uint_wraps :
+    reflectV .uint (.int (2 ^ 63)) = some (.int (-(2 ^ 63))) ∧ jsonV .uint (.int (2 ^ 63)) = some (.int (2 ^ 63)) ∧
+      Value.equals (.int (-(2 ^ 63))) (.int (2 ^ 63)) = false := by
+  refine ⟨by simp [reflectV], by simp [jsonV], by simp [Value.equals]⟩
 
 end SMD
